@@ -27,6 +27,8 @@ def run(chk):
         c = K.composite_federation_contract(m); chk.prove(c); chk.canary(c)
     for v in ('object', 'id'):          # navigation on top of query: relationships() == the scan, given the contract of query()
         c = K.relationships_contract(v); chk.prove(c); chk.canary(c)
+    for v in ('object', 'id'):          # related_to() on top of relationships() and query(), both under contract (two loops over sets: invariants with an index-free exit form)
+        chk.prove(K.related_to_contract(v))       # (no canary: the reachability query carries the enumeration axioms and times out; non-vacuity is shown by the mutants of DESIGN 18.7, which turn the ensures undecided)
     for v in ('list', 'single', 'none'):          # filters attached to a composite are handed to every member through FilterSet.add
         c = KF.filterset_add_contract(v); chk.prove(c); chk.canary(c)
     for name, claim in K.order_independence_lemma(): chk.lemma(name, claim)
